@@ -356,6 +356,29 @@ var (
 type proc struct {
 	ds  *world.MemDS
 	seq *single.Sequencer
+	// held: the batches GetNextBatch handed out lately, as the consumer holds them (the very objects, not copies), with
+	// their content at the moment of the return. A batch that was delivered is the consumer's: whatever the queue does
+	// afterwards (accepting, handing out, compacting) must not change it under the consumer's hands.
+	held   []heldBatch
+	heldMu sync.Mutex
+}
+
+type heldBatch struct {
+	b    *coresequencer.Batch
+	key  string
+	name string
+}
+
+// heldChanged reports the first handed-out batch whose content is no longer what GetNextBatch returned.
+func (p *proc) heldChanged() string {
+	p.heldMu.Lock()
+	defer p.heldMu.Unlock()
+	for _, h := range p.held {
+		if now := contentKey(h.b.Transactions); now != h.key {
+			return fmt.Sprintf("the batch %s that GetNextBatch handed out earlier changed in the consumer's hands after later calls on the sequencer (content key %s at the return, %s now): a delivered batch is replaced by another one", h.name, h.key, now)
+		}
+	}
+	return ""
 }
 
 func startProc(im *world.Image, bound int) (*proc, error) {
@@ -390,14 +413,26 @@ func (p *proc) submit(id string, batch *coresequencer.Batch) Obs {
 }
 
 func (p *proc) next(names map[string]string) Obs {
+	if msg := p.heldChanged(); msg != "" {
+		return Obs{Kind: "err", Err: msg}
+	}
 	resp, err := p.seq.GetNextBatch(context.Background(), coresequencer.GetNextBatchRequest{Id: []byte(chainID)})
 	if err != nil {
 		return Obs{Kind: "err", Err: err.Error()}
+	}
+	if msg := p.heldChanged(); msg != "" {
+		return Obs{Kind: "err", Err: msg}
 	}
 	if resp == nil || resp.Batch == nil || len(resp.Batch.Transactions) == 0 {
 		return Obs{Kind: "empty"}
 	}
 	ck := contentKey(resp.Batch.Transactions)
+	p.heldMu.Lock()
+	p.held = append(p.held, heldBatch{b: resp.Batch, key: ck, name: names[ck]})
+	if len(p.held) > 4 {
+		p.held = p.held[len(p.held)-4:]
+	}
+	p.heldMu.Unlock()
 	if n, ok := names[ck]; ok {
 		return Obs{Kind: "batch", Batch: n}
 	}
